@@ -43,6 +43,8 @@ pub struct StageResult {
     pub derives_checked: usize,
     pub alone_crates: usize,
     pub faulty_derives: usize,
+    pub expansions_compared: usize,
+    pub expansion_note: Option<String>,
     pub samples: Vec<Value>,
     /// (class, detail, replay document)
     pub violations: Vec<(String, String, Value)>,
@@ -208,7 +210,7 @@ pub fn run(histories: &[Vec<Derive>], work: &Path, repo: &Path, target: &Path) -
     let out = match out {
         Ok(o) => o,
         Err(e) => {
-            return StageResult { histories: 0, derives_checked: 0, alone_crates: 0, faulty_derives: 0, samples: vec![], violations: vec![], harness_error: Some(format!("cannot run cargo: {}", e)) }
+            return StageResult { histories: 0, derives_checked: 0, alone_crates: 0, faulty_derives: 0, expansions_compared: 0, expansion_note: None, samples: vec![], violations: vec![], harness_error: Some(format!("cannot run cargo: {}", e)) }
         }
     };
     // crate -> derive index -> list of normalised error texts
@@ -255,10 +257,15 @@ pub fn run(histories: &[Vec<Derive>], work: &Path, repo: &Path, target: &Path) -
     for m in &members {
         if !finished.contains_key(m) && !diags.contains_key(m) {
             let tail: String = stderr.lines().rev().take(12).collect::<Vec<_>>().into_iter().rev().collect::<Vec<_>>().join("\n");
-            return StageResult { histories: 0, derives_checked: 0, alone_crates: 0, faulty_derives: 0, samples: vec![], violations: vec![], harness_error: Some(format!("crate {} produced neither an artifact nor an error diagnostic; cargo said:\n{}", m, tail)) };
+            return StageResult { histories: 0, derives_checked: 0, alone_crates: 0, faulty_derives: 0, expansions_compared: 0, expansion_note: None, samples: vec![], violations: vec![], harness_error: Some(format!("crate {} produced neither an artifact nor an error diagnostic; cargo said:\n{}", m, tail)) };
         }
     }
-    let mut res = StageResult { histories: histories.len(), derives_checked: 0, alone_crates: alone.len(), faulty_derives: 0, samples: vec![], violations: vec![], harness_error: None };
+    // second pass (when a nightly toolchain is present): the macro-expanded source of every crate,
+    // obtained through a RUSTC_WRAPPER that re-runs rustc with -Zunpretty=expanded for the
+    // generated crates. This is what lets the stage compare the code of VALID derives.
+    let expanded = expansions(&ws, work, target);
+    let mut res = StageResult { histories: histories.len(), derives_checked: 0, alone_crates: alone.len(), faulty_derives: 0, expansions_compared: 0, expansion_note: expanded.as_ref().err().cloned(), samples: vec![], violations: vec![], harness_error: None };
+    let expanded = expanded.unwrap_or_default();
     let empty: Vec<String> = vec![];
     for (i, h) in histories.iter().enumerate() {
         let hname = format!("hist{}", i);
@@ -272,6 +279,22 @@ pub fn run(histories: &[Vec<Derive>], work: &Path, repo: &Path, target: &Path) -
                 res.faulty_derives += 1;
             }
             kinds.push(if got.is_empty() { "ok" } else { "error" });
+            if exp == got && got.is_empty() {
+                // both expanded without error: the generated code must be the same, too
+                if let (Some(a), Some(b)) = (expanded.get(aname).and_then(|m| m.first()), expanded.get(&hname).and_then(|m| m.get(j))) {
+                    res.expansions_compared += 1;
+                    if a != b {
+                        let at = a.bytes().zip(b.bytes()).position(|(x, y)| x != y).unwrap_or(a.len().min(b.len()));
+                        let ctx = |z: &str| z[z.char_indices().map(|(i, _)| i).filter(|i| *i <= at.saturating_sub(80)).last().unwrap_or(0)..].chars().take(200).collect::<String>();
+                        res.violations.push((
+                            "rustc-stage:expansion-differs".to_string(),
+                            format!("derive #{} ({} on {}) expands differently inside a crate with {} derives than alone: alone …{}… / in sequence …{}…", j, d.struct_name, d.query, h.len(), ctx(a), ctx(b)),
+                            json!({"derives": h.iter().map(|d| d.to_json()).collect::<Vec<_>>(), "offending_index": j}),
+                        ));
+                        break;
+                    }
+                }
+            }
             if exp != got {
                 let class = if got.iter().any(|g| g.contains("poisoned")) { "poison-propagation" } else { "rustc-stage:derive-diagnostics-differ" };
                 res.violations.push((
@@ -287,6 +310,63 @@ pub fn run(histories: &[Vec<Derive>], work: &Path, repo: &Path, target: &Path) -
         }
     }
     res
+}
+
+/// crate name -> expanded text of each `pub mod d<i>` (module names normalised)
+fn expansions(ws: &Path, work: &Path, target: &Path) -> Result<BTreeMap<String, Vec<String>>, String> {
+    let out_dir = work.join("consumer").join("expanded");
+    let _ = std::fs::remove_dir_all(&out_dir);
+    std::fs::create_dir_all(&out_dir).map_err(|e| e.to_string())?;
+    let wrapper = work.join("consumer").join("rustc_wrapper.sh");
+    std::fs::write(
+        &wrapper,
+        "#!/bin/sh\nrustc=\"$1\"; shift\nname=\"\"; prev=\"\"\nfor a in \"$@\"; do if [ \"$prev\" = \"--crate-name\" ]; then name=\"$a\"; fi; prev=\"$a\"; done\ncase \"$name\" in hist*|alone*) \"$rustc\" \"$@\" -Zunpretty=expanded > \"$EXPAND_OUT/$name.rs\" 2>/dev/null || true ;; esac\nexec \"$rustc\" \"$@\"\n",
+    )
+    .map_err(|e| e.to_string())?;
+    use std::os::unix::fs::PermissionsExt;
+    std::fs::set_permissions(&wrapper, std::fs::Permissions::from_mode(0o755)).map_err(|e| e.to_string())?;
+    let nightly_target = target.parent().unwrap_or(target).join("consumer-nightly");
+    let out = Command::new("cargo")
+        .args(["+nightly", "check", "--offline", "--workspace", "--keep-going", "-q", "--target-dir"])
+        .arg(&nightly_target)
+        .current_dir(ws)
+        .env("CARGO_NET_OFFLINE", "true")
+        .env("RUSTC_WRAPPER", &wrapper)
+        .env("EXPAND_OUT", &out_dir)
+        .env_remove("RUSTFLAGS")
+        .output()
+        .map_err(|e| format!("cannot run cargo +nightly: {}", e))?;
+    let _ = out; // errors of faulty derives are expected; what counts is which files appeared
+    let mut map = BTreeMap::new();
+    let rd = std::fs::read_dir(&out_dir).map_err(|e| e.to_string())?;
+    for e in rd.filter_map(|e| e.ok()) {
+        let name = e.file_name().to_string_lossy().trim_end_matches(".rs").to_string();
+        let text = std::fs::read_to_string(e.path()).unwrap_or_default();
+        let mut mods: Vec<String> = vec![];
+        let mut cur: Option<String> = None;
+        for line in text.lines() {
+            let is_start = line.starts_with("pub mod d") && line.ends_with('{') && line["pub mod d".len()..line.len() - 1].trim().chars().all(|c| c.is_ascii_digit());
+            if is_start {
+                if let Some(c) = cur.take() {
+                    mods.push(c);
+                }
+                cur = Some(String::new());
+                continue;
+            }
+            if let Some(c) = cur.as_mut() {
+                c.push_str(line);
+                c.push('\n');
+            }
+        }
+        if let Some(c) = cur.take() {
+            mods.push(c);
+        }
+        map.insert(name.clone(), mods.into_iter().map(|m| normalise(&m, &name)).collect());
+    }
+    if map.is_empty() {
+        return Err("no expansions were produced (nightly toolchain or -Zunpretty=expanded unavailable)".into());
+    }
+    Ok(map)
 }
 
 pub fn target_dir(verif_target: &Path) -> PathBuf {
